@@ -49,6 +49,9 @@ pub struct State {
     pub written: Vec<u8>,
     /// number of reads that found nothing to deliver (reader blocked on the peer)
     pub starved: usize,
+    /// the write call with this index (0 = first) fails with an I/O error, and every later one
+    pub fail_write_call: Option<usize>,
+    pub write_calls: usize,
 }
 
 #[derive(Clone)]
@@ -76,6 +79,8 @@ impl Scripted {
                 last_was_pending: false,
                 written: vec![],
                 starved: 0,
+                fail_write_call: None,
+                write_calls: 0,
             })),
             ctx,
         }
@@ -154,6 +159,12 @@ impl AsyncRead for Scripted {
 impl AsyncWrite for Scripted {
     fn poll_write(self: Pin<&mut Self>, _cx: &mut Context<'_>, buf: &[u8]) -> Poll<std::io::Result<usize>> {
         let mut st = self.st.borrow_mut();
+        let call = st.write_calls;
+        st.write_calls += 1;
+        if st.fail_write_call.map(|k| call >= k).unwrap_or(false) {
+            st.log.push(Ev::Mark(format!("write of {} bytes refused (broken pipe)", buf.len())));
+            return Poll::Ready(Err(std::io::Error::new(std::io::ErrorKind::BrokenPipe, "broken pipe (scripted)")));
+        }
         // a transport may accept only a prefix of the offered bytes (deviation: one byte / half)
         let n = if st.chunking == Chunking::Deviations && buf.len() > 1 {
             match self.ctx.borrow_mut().dev(3, "write-split") {
